@@ -534,9 +534,10 @@ Section Prefixes.
   Lemma wmsg_unfold e : wmsg e = trim_error_code_prefix e (marshal_status e) (marshal_code e).
   Proof. reflexivity. Qed.
 
+  (* one plain hop leaves the message on the wire unchanged: the client renders
+     "<status>: <code text>[: <message>]" and the next MarshalError strips exactly that *)
   Lemma wmsg_plain_hop hs e :
-    plainspec hs = true -> marshal_status e <> 0%Z ->
-    wmsg (hop hs e) = match wmsg e with [] => cprefix (marshal_code e) | m => m end.
+    plainspec hs = true -> marshal_status e <> 0%Z -> wmsg (hop hs e) = wmsg e.
   Proof.
     intros Hp Hst.
     pose proof (plainspec_body _ Hp) as Hb. pose proof (bodyspec_nowv _ Hb) as Hn.
@@ -552,14 +553,12 @@ Section Prefixes.
     destruct (marshal_code e) as [|c0 cr] eqn:Ec; [now apply marshal_code_not_empty in Ec|].
     rewrite <- Ec.
     destruct (wmsg e) as [|b m].
-    - apply trim_prefix_short. rewrite app_length. cbn. lia.
-    - apply trim_prefix_app.
+    - now rewrite beqb_refl.
+    - destruct (beqb _ _) eqn:E.
+      + apply beqb_eq in E. apply (f_equal (@length N)) in E.
+        rewrite !app_length in E. cbn in E. lia.
+      + apply trim_prefix_app.
   Qed.
-
-  (* message_fixpoint: a non-empty message on the wire is the message on the wire ever after *)
-  Lemma wmsg_fixpoint_hop hs e :
-    plainspec hs = true -> marshal_status e <> 0%Z -> wmsg e <> [] -> wmsg (hop hs e) = wmsg e.
-  Proof. intros Hp Hst Hm. rewrite wmsg_plain_hop by assumption. destruct (wmsg e); congruence. Qed.
 
   Lemma forallb_plain_body l : forallb plainspec l = true -> forallb bodyspec l = true.
   Proof.
@@ -567,53 +566,17 @@ Section Prefixes.
     apply andb_true_iff in H as [H1 H2]. now rewrite plainspec_body, IH.
   Qed.
 
+  (* message_fixpoint: the message on the wire is the same after any number of plain hops *)
   Lemma wmsg_fixpoint l e :
-    forallb plainspec l = true -> marshal_status e <> 0%Z -> wmsg e <> [] -> wmsg (hops l e) = wmsg e.
+    forallb plainspec l = true -> marshal_status e <> 0%Z -> wmsg (hops l e) = wmsg e.
   Proof.
-    revert e. induction l as [|hs l IH]; intros e H Hst Hm; cbn [Errors.hops forallb] in *; [reflexivity|].
+    revert e. induction l as [|hs l IH]; intros e H Hst; cbn [Errors.hops forallb] in *; [reflexivity|].
     apply andb_true_iff in H as [H1 H2].
     assert (Hn : nowvspec hs = true) by now apply bodyspec_nowv, plainspec_body.
     rewrite (IH (hop hs e)).
-    - now apply wmsg_fixpoint_hop.
+    - now apply wmsg_plain_hop.
     - exact H2.
     - now rewrite status_preserved_hop.
-    - now rewrite wmsg_fixpoint_hop.
-  Qed.
-
-  (* the empty message: the first hop turns it into the code text, which then stays *)
-  Lemma wmsg_empty l hs e :
-    forallb plainspec (hs :: l) = true -> marshal_status e <> 0%Z -> wmsg e = [] ->
-    wmsg (hops (hs :: l) e) = cprefix (marshal_code e).
-  Proof.
-    cbn [forallb hops]. intros H Hst Hm. apply andb_true_iff in H as [H1 H2].
-    revert hs e H1 Hst Hm. induction l as [|hs' l IH]; intros hs e H1 Hst Hm.
-    - cbn [Errors.hops]. rewrite wmsg_plain_hop by assumption. now rewrite Hm.
-    - cbn [forallb] in H2. apply andb_true_iff in H2 as [H2 H3]. cbn [hops].
-      assert (Hn : nowvspec hs = true) by now apply bodyspec_nowv, plainspec_body.
-      assert (Hb : bodyspec hs = true) by now apply plainspec_body.
-      assert (E1 : wmsg (hop hs e) = cprefix (marshal_code e)).
-      { rewrite wmsg_plain_hop by assumption. now rewrite Hm. }
-      assert (Hst' : marshal_status (hop hs e) <> 0%Z) by now rewrite status_preserved_hop.
-      destruct (cprefix (marshal_code e)) as [|b m] eqn:Ep.
-      + cbn [hops] in IH. rewrite (IH H3 hs' (hop hs e) H2 Hst' E1).
-        now rewrite code_preserved_hop.
-      + change (hops l (hop hs' (hop hs e))) with (hops (hs' :: l) (hop hs e)).
-        rewrite wmsg_fixpoint.
-        * now rewrite code_preserved_hop || exact E1.
-        * cbn [forallb]. now rewrite H2, H3.
-        * exact Hst'.
-        * rewrite E1. discriminate.
-  Qed.
-
-  (* no accumulation: whatever the number of plain hops *)
-  Lemma wmsg_bounded l e :
-    forallb plainspec l = true -> marshal_status e <> 0%Z ->
-    (length (wmsg (hops l e)) <= length (wmsg e) + length (cprefix (marshal_code e)))%nat.
-  Proof.
-    intros H Hst. destruct l as [|hs l]; [cbn; lia|].
-    destruct (wmsg e) as [|b m] eqn:Em.
-    - rewrite wmsg_empty by assumption. cbn. lia.
-    - rewrite wmsg_fixpoint; try assumption; rewrite Em; [lia | discriminate].
   Qed.
 
   (* what the client shows as the message is what was on the wire *)
@@ -633,12 +596,78 @@ Section Prefixes.
     (length (trim_error_code_prefix e st c) <= length (text e))%nat.
   Proof.
     unfold trim_error_code_prefix.
-    destruct c; destruct (Z.eqb st 0);
+    destruct c; destruct (Z.eqb st 0); try destruct (beqb _ _); cbn [length];
       repeat (etransitivity; [apply trim_prefix_length|]); lia.
   Qed.
 
   Lemma wmsg_length e : (length (wmsg e) <= length (text e))%nat.
   Proof. apply trim_error_code_prefix_length. Qed.
+
+  (* ---- paths ---- *)
+
+  Lemma hops_snoc l hs e : hops (l ++ [hs]) e = hop hs (hops l e).
+  Proof. revert e. induction l as [|a l IH]; intros e; cbn; [reflexivity | apply IH]. Qed.
+
+  (* errors.Is after n >= 1 body-carrying hops is the original answer, for an error with at most
+     one reachable code, except for ErrRangeInvalid when status 416 and code disagree *)
+  Lemma is_preserved_hops hs l e t :
+    forallb bodyspec (hs :: l) = true -> single e = true ->
+    (is_range t = true -> range_clean e = true) ->
+    is (hops (hs :: l) e) t = is e t.
+  Proof. intros Hb Hs Hr. rewrite is_hops by assumption. now apply is_preserved_single. Qed.
+
+  (* HEAD hops that add no text: the result depends on the status only, and is stable *)
+  Definition wnone (w : wrap) : bool := match w with WNone => true | _ => false end.
+  Definition headspec (hs : hopspec) : bool := h_head hs && wnone (h_swrap hs) && wnone (h_cwrap hs).
+
+  Definition head_result (e : gerr) : gerr :=
+    Http (marshal_status e) (option_map std_err (head_map (marshal_status e))) true.
+
+  Lemma headspec_inv hs :
+    headspec hs = true -> h_head hs = true /\ h_swrap hs = WNone /\ h_cwrap hs = WNone.
+  Proof.
+    unfold headspec. destruct (h_head hs), (h_swrap hs), (h_cwrap hs); cbn; intros H;
+      try discriminate H; auto.
+  Qed.
+
+  Lemma headspec_nowv hs : headspec hs = true -> nowvspec hs = true.
+  Proof. intros H. apply headspec_inv in H as [_ [Hs Hc]]. unfold nowvspec. now rewrite Hs, Hc. Qed.
+
+  Lemma hop_headspec hs e : headspec hs = true -> hop hs e = head_result e.
+  Proof.
+    intros H. apply headspec_inv in H as [Hh [Hs Hc]].
+    rewrite hop_head by (auto; now rewrite Hs). now rewrite Hc.
+  Qed.
+
+  Lemma head_result_status e : marshal_status (head_result e) = marshal_status e.
+  Proof.
+    set (hs := {| h_head := true; h_swrap := WNone; h_cwrap := WNone; h_len := 0 |}).
+    rewrite <- (hop_headspec hs e) by reflexivity. now apply status_preserved_hop.
+  Qed.
+
+  Lemma head_result_idem e : head_result (head_result e) = head_result e.
+  Proof. unfold head_result at 1. now rewrite head_result_status. Qed.
+
+  Lemma hops_head_stable l e :
+    forallb headspec l = true -> hops l (head_result e) = head_result e.
+  Proof.
+    induction l as [|hs l IH]; cbn [Errors.hops forallb]; [reflexivity|]. intros H.
+    apply andb_true_iff in H as [H1 H2]. rewrite hop_headspec by assumption.
+    rewrite head_result_idem. now apply IH.
+  Qed.
+
+  Lemma hops_head hs l e :
+    forallb headspec (hs :: l) = true -> hops (hs :: l) e = head_result e.
+  Proof.
+    cbn [Errors.hops forallb]. intros H. apply andb_true_iff in H as [H1 H2].
+    rewrite hop_headspec by assumption. now apply hops_head_stable.
+  Qed.
+
+  Lemma is_head_result e t : is (head_result e) t = is_head (marshal_status e) t.
+  Proof.
+    set (hs := {| h_head := true; h_swrap := WNone; h_cwrap := WNone; h_len := 0 |}).
+    rewrite <- (hop_headspec hs e) by reflexivity. now apply is_hop_head.
+  Qed.
 
   (* ---- panics ---- *)
 
@@ -663,3 +692,65 @@ Section Prefixes.
   Qed.
 
 End Prefixes.
+
+(* ---------------------------------------------------------------- statements used by Props/C07.v *)
+
+Section Statements.
+  Variable sprefix : Z -> bytes.
+  Variable cprefix : bytes -> bytes.
+  Notation hop := (hop sprefix cprefix).
+  Notation hops := (hops sprefix cprefix).
+  Notation wmsg := (wmsg sprefix cprefix).
+  Notation cmsg := (cmsg sprefix cprefix).
+
+  (* the message the caller finds after n >= 1 plain hops is the first wire message *)
+  Lemma cmsg_plain_hops hs l e :
+    forallb plainspec (hs :: l) = true -> marshal_status e <> 0%Z ->
+    Errors.cmsg (hops (hs :: l) e) = Some (wmsg e).
+  Proof.
+    intros Hp Hst.
+    assert (Hne : hs :: l <> []) by discriminate.
+    destruct (exists_last Hne) as [l' [a E]]. rewrite E in *.
+    rewrite forallb_app in Hp. apply andb_true_iff in Hp as [Hl Ha]. cbn in Ha.
+    rewrite andb_true_r in Ha.
+    rewrite hops_snoc, (cmsg_hop sprefix cprefix) by now apply plainspec_body.
+    destruct (plainspec_wraps a Ha) as [-> _]. cbn [Errors.apply_wrap].
+    now rewrite wmsg_fixpoint by assumption.
+  Qed.
+
+  Lemma message_fixpoint hs l e :
+    forallb plainspec (hs :: l) = true -> marshal_status e <> 0%Z ->
+    Errors.cmsg (hops (hs :: l) e) = Errors.cmsg (hop hs e).
+  Proof.
+    intros Hp Hst. rewrite cmsg_plain_hops by assumption.
+    change (hop hs e) with (hops [hs] e). rewrite cmsg_plain_hops; auto.
+    cbn [forallb] in *. apply andb_true_iff in Hp as [-> _]. reflexivity.
+  Qed.
+
+  (* the status the caller reads after n >= 1 hops that do not flatten (HEAD included) *)
+  Lemma status_read hs l e :
+    forallb nowvspec (hs :: l) = true ->
+    as_http (hops (hs :: l) e) = Some (marshal_status e).
+  Proof.
+    intros Hp.
+    assert (Hne : hs :: l <> []) by discriminate.
+    destruct (exists_last Hne) as [l' [a E]]. rewrite E in *.
+    rewrite forallb_app in Hp. apply andb_true_iff in Hp as [Hl Ha]. cbn in Ha.
+    rewrite andb_true_r in Ha.
+    rewrite hops_snoc, as_http_hop by assumption. now rewrite status_preserved.
+  Qed.
+
+  (* code and detail the caller reads after n >= 1 body-carrying hops *)
+  Lemma code_detail_read hs l e :
+    forallb bodyspec (hs :: l) = true ->
+    exists m, as_err (hops (hs :: l) e) = Some (W (marshal_code e) m (marshal_detail e)).
+  Proof.
+    intros Hp.
+    assert (Hne : hs :: l <> []) by discriminate.
+    destruct (exists_last Hne) as [l' [a E]]. rewrite E in *.
+    rewrite forallb_app in Hp. apply andb_true_iff in Hp as [Hl Ha]. cbn in Ha.
+    rewrite andb_true_r in Ha.
+    rewrite hops_snoc. destruct (as_err_hop sprefix cprefix a (hops l' e) Ha) as [m ->].
+    exists m. now rewrite code_preserved, detail_preserved.
+  Qed.
+End Statements.
